@@ -55,7 +55,9 @@ def gen_script(rng):
         steps.append((t, mode, d, e, phc, refid, tag))
         if mode == 1:
             last_good = t + d
-        t = t + d + e + rng.choice([NS, NS + rng.randrange(NS), 2 * NS, 6 * NS])
+        # the next poll: after the loop's wait of a second or more - or almost at once (the loop is woken early by
+        # any message in its mailbox), within the same tick of the coarse clock
+        t = t + d + e + rng.choice([NS, NS + rng.randrange(NS), 2 * NS, 6 * NS, NS, rng.choice([0, 1, 1000, 10 ** 6, 3 * 10 ** 6])])
     if cfg >= 0 and rng.random() < 0.4:
         # chronyd repeats one reference time over several polls (no new measurement) while the PHC
         # driver's error bound moves: every poll must forward the number the file holds now
@@ -121,6 +123,17 @@ def run_scripts(res, rng, n):
         for off in sorted(rng.sample([4294 * NS + 9 * 10 ** 8, 4295 * NS + 2 * 10 ** 8, 4297 * NS, 4299 * NS + 9 * 10 ** 8, 4300 * NS + 10 ** 8,
                                       8590 * NS + 5 * 10 ** 8, 8594 * NS, 4294967 * NS + 5 * 10 ** 8, 4294970 * NS, 3600 * NS, 86400 * NS], 6)):
             steps.append((t0 + off, rng.choice([0, 2, 3]), 0, rng.choice([0, 1000]), -1, 7, 1))
+        scripts.append((start, -1, steps))
+    # bursts: polls that follow one another within microseconds (the loop woken early again and again): every
+    # report is still stamped with the reading taken at the start of its own poll
+    for _ in range(max(3, n // 20)):
+        start = rng.randrange(10, 1000) * NS
+        t = start + NS + rng.randrange(NS)
+        steps = []
+        for i in range(rng.randrange(3, 8)):
+            d = rng.choice([0, 0, 1000, 10 ** 5])
+            steps.append((t, 1, d, 0, -1, 7, rng.randrange(1, 60000)))
+            t += d + rng.choice([0, 1, 1000, 10 ** 6, 3 * 10 ** 6, 4 * 10 ** 6])
         scripts.append((start, -1, steps))
     # a chronyd that holds its socket but stops replying (each silent query costs three seconds of real time,
     # hence few of these): within the grace period of the last good answer the outcome is still the milder one
